@@ -106,8 +106,32 @@ func mkCopy(i int) (*upperWriter, *countReader, int64) {
 	return &upperWriter{}, &countReader{max: 9 + i}, int64(4 + i)
 }
 
+func tag3(n int) string {
+	return "t" + string(rune('a'+n%26))
+}
+
+func yieldThen(n int) int {
+	hook.Y()
+	return n * 10
+}
+
+// walk3 re-enters its own call site while the arguments of the outer call are being evaluated
+func walk3(n int) int {
+	if n <= 0 {
+		return 0
+	}
+	hook.Rec3(n, tag3(n), walk3(n-1)+yieldThen(n))
+	return n
+}
+
 func job(i int) {
-	switch hook.Choose(15) {
+	switch hook.Choose(16) {
+	case 15:
+		// a compiled function of three parameters and no result: its arguments belong to one
+		// activation of the call site, also when another activation (re-entrant, or of another
+		// goroutine at the yield inside the argument list) overlaps
+		hook.Rec3(i, tag3(i), yieldThen(i))
+		walk3(2 + i%3)
 	case 14:
 		// f(g()): the values returned by g are converted one by one to the parameters of the
 		// compiled function (program types to compiled interfaces, the last one as is)
